@@ -40,12 +40,13 @@ Fixpoint val_eqb (a b : val Z) : bool :=
   | _, _ => false
   end.
 
-Definition outcome := out (val Z * val Z).     (* (result, final receiver) *)
+(* returns (result, final receiver) | panics (receiver as the panicking call left it) | out of fuel or stuck *)
+Inductive outcome := ORet (p : val Z * val Z) | OPanic (r : val Z) | OHang.
 Definition outcome_eqb (a b : outcome) : bool :=
   match a, b with
-  | Ret (v, r), Ret (w, s) => val_eqb v w && val_eqb r s
-  | Panic, Panic => true
-  | Hang, Hang => true
+  | ORet (v, r), ORet (w, s) => val_eqb v w && val_eqb r s
+  | OPanic r, OPanic s => val_eqb r s
+  | OHang, OHang => true
   | _, _ => false
   end.
 
@@ -56,7 +57,22 @@ Record disagreement := {
 
 Definition sweep_fuel : nat := 200.
 Definition gen (recv : val Z) (m : ident) (args : list (val Z)) : outcome :=
-  run_method Z 0 no_ext prog sweep_fuel recv m args.
+  match call_at Z 0 no_ext prog sweep_fuel recv m args with
+  | ROk r => ORet r
+  | RPanic r => OPanic r
+  | _ => OHang
+  end.
+Definition genx (ext : ident -> ident -> val Z -> list (val Z) -> option (val Z)) (recv : val Z) (m : ident)
+           (args : list (val Z)) : outcome :=
+  match call_at Z 0 ext prog sweep_fuel recv m args with
+  | ROk r => ORet r
+  | RPanic r => OPanic r
+  | _ => OHang
+  end.
+Definition cmpx ext (m : ident) (recv : val Z) (args : list (val Z)) (model : outcome) : list disagreement :=
+  let g := genx ext recv m args in
+  if outcome_eqb g model then []
+  else [{| d_method := m; d_recv := recv; d_args := args; d_model := model; d_generated := g |}].
 Definition cmp (m : ident) (recv : val Z) (args : list (val Z)) (model : outcome) : list disagreement :=
   let g := gen recv m args in
   if outcome_eqb g model then []
@@ -68,7 +84,7 @@ Definition zrange (a : Z) (n : nat) : list Z := map (fun k => a + Z.of_nat k) (u
 Definition vals (n : nat) : list Z := map (fun k => 11 * Z.of_nat (S k)) (firstn n (upto n)).  (* 11,22,.. *)
 Definition sizes : list nat := upto 5.
 Definition indices : list Z := zrange (-7) 14.
-Definition ret_unit (r : val Z) : outcome := Ret (VTuple [], r).
+Definition ret_unit (r : val Z) : outcome := ORet (VTuple [], r).
 
 (* ---------- C17: agent/iterator.go ---------- *)
 (* every snapshot [11;22;..] of 0..5 values, every slot 0..size *)
@@ -77,13 +93,13 @@ Definition iters : list (iter Z) :=
 Definition irep (i : iter Z) : val Z := it_val VNil (it_vals i) (Z.of_nat (it_slot i)).
 
 Definition sweep_iterator_GetNext := flat_map (fun i =>
-  cmp id_GetNext (irep i) [] (Ret (VElem (fst (get_next 0 i)), irep (snd (get_next 0 i))))) iters.
+  cmp id_GetNext (irep i) [] (ORet (VElem (fst (get_next 0 i)), irep (snd (get_next 0 i))))) iters.
 Definition sweep_iterator_GetPrevious := flat_map (fun i =>
-  cmp id_GetPrevious (irep i) [] (Ret (VElem (fst (get_prev 0 i)), irep (snd (get_prev 0 i))))) iters.
+  cmp id_GetPrevious (irep i) [] (ORet (VElem (fst (get_prev 0 i)), irep (snd (get_prev 0 i))))) iters.
 Definition sweep_iterator_HasNext := flat_map (fun i =>
-  cmp id_HasNext (irep i) [] (Ret (VBool (has_next i), irep i))) iters.
+  cmp id_HasNext (irep i) [] (ORet (VBool (has_next i), irep i))) iters.
 Definition sweep_iterator_HasPrevious := flat_map (fun i =>
-  cmp id_HasPrevious (irep i) [] (Ret (VBool (has_prev i), irep i))) iters.
+  cmp id_HasPrevious (irep i) [] (ORet (VBool (has_prev i), irep i))) iters.
 Definition sweep_iterator_ToStart := flat_map (fun i =>
   cmp id_ToStart (irep i) [] (ret_unit (irep (to_start i)))) iters.
 Definition sweep_iterator_ToEnd := flat_map (fun i =>
@@ -91,14 +107,14 @@ Definition sweep_iterator_ToEnd := flat_map (fun i =>
 Definition sweep_iterator_ToSlot := flat_map (fun i => flat_map (fun s =>
   cmp id_ToSlot (irep i) [VInt s] (ret_unit (irep (to_slot i s)))) indices) iters.
 Definition sweep_iterator_GetSlot := flat_map (fun i =>
-  cmp id_GetSlot (irep i) [] (Ret (VInt (Z.of_nat (it_slot i)), irep i))) iters.
+  cmp id_GetSlot (irep i) [] (ORet (VInt (Z.of_nat (it_slot i)), irep i))) iters.
 Definition sweep_iterator_GetSize := flat_map (fun i =>
-  cmp id_GetSize (irep i) [] (Ret (VInt (Z.of_nat (it_size i)), irep i))) iters.
+  cmp id_GetSize (irep i) [] (ORet (VInt (Z.of_nat (it_size i)), irep i))) iters.
 Definition sweep_iterator_IsEmpty := flat_map (fun i =>
-  cmp id_IsEmpty (irep i) [] (Ret (VBool (Nat.eqb (it_size i) 0), irep i))) iters.
+  cmp id_IsEmpty (irep i) [] (ORet (VBool (Nat.eqb (it_size i) 0), irep i))) iters.
 Definition sweep_iteratorClass_MakeFromArray := flat_map (fun n =>
   cmp id_MakeFromArray (VObj id_iteratorClass_ []) [VSlice (elems (vals n))]
-      (Ret (irep (it_make (vals n)), VObj id_iteratorClass_ []))) sizes.
+      (ORet (irep (it_make (vals n)), VObj id_iteratorClass_ []))) sizes.
 
 Definition sweeps_C17 : list disagreement :=
   sweep_iterator_GetNext ++ sweep_iterator_GetPrevious ++ sweep_iterator_HasNext ++ sweep_iterator_HasPrevious ++
@@ -110,67 +126,68 @@ Definition lists : list (list Z) := map vals sizes.                       (* [],
 Definition srcs : list (list Z) := map (fun n => map (fun x => x + 1000) (vals n)) (upto 6).
 Definition aval (l : list Z) : val Z := arr_val l.
 Definition lval (l : list Z) : val Z := lst_val VNil l.
+(* a call that panics leaves the receiver as it was: C01 and C13 say so of every operation *)
 Definition opt_pos (recv : val Z) (o : option nat) : outcome :=
-  match o with Some k => Ret (VInt (Z.of_nat k), recv) | None => Panic end.
-Definition of_out {X} (f : X -> outcome) (o : out X) : outcome :=
-  match o with Ret x => f x | Panic => Panic | Hang => Hang end.
+  match o with Some k => ORet (VInt (Z.of_nat k), recv) | None => OPanic recv end.
+Definition of_out {X} (recv : val Z) (f : X -> outcome) (o : out X) : outcome :=
+  match o with Ret x => f x | Panic => OPanic recv | Hang => OHang end.
 
 Definition sweep_array_toZeroBased := flat_map (fun l => flat_map (fun i =>
   cmp id_toZeroBased (aval l) [VInt i] (opt_pos (aval l) (pos (length l) i))) indices) lists.
 Definition sweep_array_GetValue := flat_map (fun l => flat_map (fun i =>
-  cmp id_GetValue (aval l) [VInt i] (of_out (fun v => Ret (VElem v, aval l)) (get_value 0 l i))) indices) lists.
+  cmp id_GetValue (aval l) [VInt i] (of_out (aval l) (fun v => ORet (VElem v, aval l)) (get_value 0 l i))) indices) lists.
 Definition sweep_array_SetValue := flat_map (fun l => flat_map (fun i =>
-  cmp id_SetValue (aval l) [VInt i; VElem 9] (of_out (fun l' => ret_unit (aval l')) (set_value l i 9))) indices) lists.
+  cmp id_SetValue (aval l) [VInt i; VElem 9] (of_out (aval l) (fun l' => ret_unit (aval l')) (set_value l i 9))) indices) lists.
 Definition sweep_array_GetValues := flat_map (fun l => flat_map (fun i => flat_map (fun j =>
-  cmp id_GetValues (aval l) [VInt i; VInt j] (of_out (fun r => Ret (aval r, aval l)) (get_values l i j))) indices) indices) lists.
+  cmp id_GetValues (aval l) [VInt i; VInt j] (of_out (aval l) (fun r => ORet (aval r, aval l)) (get_values l i j))) indices) indices) lists.
 Definition sweep_array_SetValues := flat_map (fun l => flat_map (fun i => flat_map (fun s =>
-  cmp id_SetValues (aval l) [VInt i; aval s] (of_out (fun l' => ret_unit (aval l')) (set_values l i s))) srcs) indices) lists.
+  cmp id_SetValues (aval l) [VInt i; aval s] (of_out (aval l) (fun l' => ret_unit (aval l')) (set_values l i s))) srcs) indices) lists.
 Definition sweep_array_GetSize := flat_map (fun l =>
-  cmp id_GetSize (aval l) [] (Ret (VInt (Z.of_nat (length l)), aval l))) lists.
+  cmp id_GetSize (aval l) [] (ORet (VInt (Z.of_nat (length l)), aval l))) lists.
 Definition sweep_array_IsEmpty := flat_map (fun l =>
-  cmp id_IsEmpty (aval l) [] (Ret (VBool (Nat.eqb (length l) 0), aval l))) lists.
+  cmp id_IsEmpty (aval l) [] (ORet (VBool (Nat.eqb (length l) 0), aval l))) lists.
 Definition sweep_array_AsArray := flat_map (fun l =>
-  cmp id_AsArray (aval l) [] (Ret (VSlice (elems l), aval l))) lists.
+  cmp id_AsArray (aval l) [] (ORet (VSlice (elems l), aval l))) lists.
 Definition sweep_array_GetIterator := flat_map (fun l =>
-  cmp id_GetIterator (aval l) [] (Ret (irep (it_make l), aval l))) lists.
+  cmp id_GetIterator (aval l) [] (ORet (irep (it_make l), aval l))) lists.
 Definition sweep_arrayClass_Make := flat_map (fun n =>
-  cmp id_Make (VObj id_arrayClass_ []) [VInt (Z.of_nat n)] (Ret (aval (repeat 0 n), VObj id_arrayClass_ []))) sizes.
+  cmp id_Make (VObj id_arrayClass_ []) [VInt (Z.of_nat n)] (ORet (aval (repeat 0 n), VObj id_arrayClass_ []))) sizes.
 
 Definition sweep_list_toNormalized := flat_map (fun l => flat_map (fun i =>
   cmp id_toNormalized (lval l) [VInt i] (opt_pos (lval l) (option_map S (pos (length l) i)))) indices) lists.
 Definition sweep_list_validateSlot := flat_map (fun l => flat_map (fun s =>
-  cmp id_validateSlot (lval l) [VInt (Z.of_nat s)] (if Nat.ltb (length l) s then Panic else ret_unit (lval l))) (upto 7)) lists.
+  cmp id_validateSlot (lval l) [VInt (Z.of_nat s)] (if Nat.ltb (length l) s then OPanic (lval l) else ret_unit (lval l))) (upto 7)) lists.
 Definition sweep_list_GetValue := flat_map (fun l => flat_map (fun i =>
-  cmp id_GetValue (lval l) [VInt i] (of_out (fun v => Ret (VElem v, lval l)) (get_value 0 l i))) indices) lists.
+  cmp id_GetValue (lval l) [VInt i] (of_out (lval l) (fun v => ORet (VElem v, lval l)) (get_value 0 l i))) indices) lists.
 Definition sweep_list_GetValues := flat_map (fun l => flat_map (fun i => flat_map (fun j =>
-  cmp id_GetValues (lval l) [VInt i; VInt j] (of_out (fun r => Ret (aval r, lval l)) (get_values l i j))) indices) indices) lists.
+  cmp id_GetValues (lval l) [VInt i; VInt j] (of_out (lval l) (fun r => ORet (aval r, lval l)) (get_values l i j))) indices) indices) lists.
 Definition sweep_list_SetValue := flat_map (fun l => flat_map (fun i =>
-  cmp id_SetValue (lval l) [VInt i; VElem 9] (of_out (fun l' => ret_unit (lval l')) (set_value l i 9))) indices) lists.
+  cmp id_SetValue (lval l) [VInt i; VElem 9] (of_out (lval l) (fun l' => ret_unit (lval l')) (set_value l i 9))) indices) lists.
 Definition sweep_list_SetValues := flat_map (fun l => flat_map (fun i => flat_map (fun s =>
-  cmp id_SetValues (lval l) [VInt i; aval s] (of_out (fun l' => ret_unit (lval l')) (set_values l i s))) srcs) indices) lists.
+  cmp id_SetValues (lval l) [VInt i; aval s] (of_out (lval l) (fun l' => ret_unit (lval l')) (set_values l i s))) srcs) indices) lists.
 Definition sweep_list_InsertValue := flat_map (fun l => flat_map (fun s =>
-  cmp id_InsertValue (lval l) [VInt (Z.of_nat s); VElem 9] (of_out (fun l' => ret_unit (lval l')) (insert_value l s 9))) (upto 7)) lists.
+  cmp id_InsertValue (lval l) [VInt (Z.of_nat s); VElem 9] (of_out (lval l) (fun l' => ret_unit (lval l')) (insert_value l s 9))) (upto 7)) lists.
 Definition sweep_list_InsertValues := flat_map (fun l => flat_map (fun s => flat_map (fun src =>
-  cmp id_InsertValues (lval l) [VInt (Z.of_nat s); aval src] (of_out (fun l' => ret_unit (lval l')) (insert_values l s src))) srcs) (upto 7)) lists.
+  cmp id_InsertValues (lval l) [VInt (Z.of_nat s); aval src] (of_out (lval l) (fun l' => ret_unit (lval l')) (insert_values l s src))) srcs) (upto 7)) lists.
 Definition sweep_list_AppendValue := flat_map (fun l =>
   cmp id_AppendValue (lval l) [VElem 9] (ret_unit (lval (append_value l 9)))) lists.
 Definition sweep_list_AppendValues := flat_map (fun l => flat_map (fun src =>
   cmp id_AppendValues (lval l) [aval src] (ret_unit (lval (append_values l src)))) srcs) lists.
 Definition sweep_list_RemoveValue := flat_map (fun l => flat_map (fun i =>
-  cmp id_RemoveValue (lval l) [VInt i] (of_out (fun r => Ret (VElem (fst r), lval (snd r))) (remove_value 0 l i))) indices) lists.
+  cmp id_RemoveValue (lval l) [VInt i] (of_out (lval l) (fun r => ORet (VElem (fst r), lval (snd r))) (remove_value 0 l i))) indices) lists.
 Definition sweep_list_RemoveValues := flat_map (fun l => flat_map (fun i => flat_map (fun j =>
   cmp id_RemoveValues (lval l) [VInt i; VInt j]
-      (of_out (fun r => Ret (aval (fst r), lval (snd r))) (remove_values l i j))) indices) indices) lists.
+      (of_out (lval l) (fun r => ORet (aval (fst r), lval (snd r))) (remove_values l i j))) indices) indices) lists.
 Definition sweep_list_RemoveAll := flat_map (fun l =>
   cmp id_RemoveAll (lval l) [] (ret_unit (lval []))) lists.
 Definition sweep_list_GetSize := flat_map (fun l =>
-  cmp id_GetSize (lval l) [] (Ret (VInt (Z.of_nat (length l)), lval l))) lists.
+  cmp id_GetSize (lval l) [] (ORet (VInt (Z.of_nat (length l)), lval l))) lists.
 Definition sweep_list_IsEmpty := flat_map (fun l =>
-  cmp id_IsEmpty (lval l) [] (Ret (VBool (Nat.eqb (length l) 0), lval l))) lists.
+  cmp id_IsEmpty (lval l) [] (ORet (VBool (Nat.eqb (length l) 0), lval l))) lists.
 Definition sweep_list_AsArray := flat_map (fun l =>
-  cmp id_AsArray (lval l) [] (Ret (VSlice (elems l), lval l))) lists.
+  cmp id_AsArray (lval l) [] (ORet (VSlice (elems l), lval l))) lists.
 Definition sweep_list_GetIterator := flat_map (fun l =>
-  cmp id_GetIterator (lval l) [] (Ret (irep (it_make l), lval l))) lists.
+  cmp id_GetIterator (lval l) [] (ORet (irep (it_make l), lval l))) lists.
 
 (* the functions that C13 rests on as well *)
 Definition sweeps_seq : list disagreement :=
@@ -190,32 +207,58 @@ Definition sval (cap : nat) (l : list Z) : val Z := stk_val VNil VNil (Z.of_nat 
 Definition stacks : list (nat * list Z) := flat_map (fun cap => map (fun n => (cap, vals n)) (upto cap)) (upto 4).
 Definition sweep_stack_AddValue := flat_map (fun s =>
   cmp id_AddValue (sval (fst s) (snd s)) [VElem 9]
-      (of_out (fun l' => ret_unit (sval (fst s) l')) (stack_push (fst s) (snd s) 9))) stacks.
+      (of_out (sval (fst s) (snd s)) (fun l' => ret_unit (sval (fst s) l')) (stack_push (fst s) (snd s) 9))) stacks.
 Definition sweep_stack_RemoveTop := flat_map (fun s =>
   cmp id_RemoveTop (sval (fst s) (snd s)) []
-      (of_out (fun r => Ret (VElem (fst r), sval (fst s) (snd r))) (stack_pop (snd s)))) stacks.
+      (of_out (sval (fst s) (snd s)) (fun r => ORet (VElem (fst r), sval (fst s) (snd r))) (stack_pop (snd s)))) stacks.
 Definition sweep_stack_RemoveAll := flat_map (fun s =>
   cmp id_RemoveAll (sval (fst s) (snd s)) [] (ret_unit (sval (fst s) []))) stacks.
 Definition sweep_stack_GetCapacity := flat_map (fun s =>
-  cmp id_GetCapacity (sval (fst s) (snd s)) [] (Ret (VInt (Z.of_nat (fst s)), sval (fst s) (snd s)))) stacks.
+  cmp id_GetCapacity (sval (fst s) (snd s)) [] (ORet (VInt (Z.of_nat (fst s)), sval (fst s) (snd s)))) stacks.
 Definition sweep_stack_GetSize := flat_map (fun s =>
-  cmp id_GetSize (sval (fst s) (snd s)) [] (Ret (VInt (Z.of_nat (length (snd s))), sval (fst s) (snd s)))) stacks.
+  cmp id_GetSize (sval (fst s) (snd s)) [] (ORet (VInt (Z.of_nat (length (snd s))), sval (fst s) (snd s)))) stacks.
 Definition sweep_stack_IsEmpty := flat_map (fun s =>
-  cmp id_IsEmpty (sval (fst s) (snd s)) [] (Ret (VBool (Nat.eqb (length (snd s)) 0), sval (fst s) (snd s)))) stacks.
+  cmp id_IsEmpty (sval (fst s) (snd s)) [] (ORet (VBool (Nat.eqb (length (snd s)) 0), sval (fst s) (snd s)))) stacks.
 Definition sweep_stack_AsArray := flat_map (fun s =>
-  cmp id_AsArray (sval (fst s) (snd s)) [] (Ret (VSlice (elems (snd s)), sval (fst s) (snd s)))) stacks.
+  cmp id_AsArray (sval (fst s) (snd s)) [] (ORet (VSlice (elems (snd s)), sval (fst s) (snd s)))) stacks.
 (* a stack is a history: push 9 then pop must give 9 back (when there is room) — found here as a
    disagreement of the second call when AddValue is wrong in a way a single call does not show *)
 Definition sweep_stack_push_pop := flat_map (fun s =>
   match gen (sval (fst s) (snd s)) id_AddValue [VElem 9] with
-  | Ret (_, r) =>
+  | ORet (_, r) =>
     cmp id_RemoveTop r []
         (match stack_push (fst s) (snd s) 9 with
-         | Ret l' => of_out (fun x => Ret (VElem (fst x), sval (fst s) (snd x))) (stack_pop l')
-         | _ => Hang end)
+         | Ret l' => of_out r (fun x => ORet (VElem (fst x), sval (fst s) (snd x))) (stack_pop l')
+         | _ => OHang end)
   | _ => []
   end) stacks.
 
 Definition sweeps_C13 : list disagreement :=
   sweep_stack_AddValue ++ sweep_stack_RemoveTop ++ sweep_stack_RemoveAll ++ sweep_stack_GetCapacity ++
   sweep_stack_GetSize ++ sweep_stack_IsEmpty ++ sweep_stack_AsArray ++ sweep_stack_push_pop ++ sweeps_seq.
+
+(* ---------- C02: collection/set.go (the binary search and what rests on it) ---------- *)
+(* rankers: the order of Z, its reverse, and three inconsistent ones (the search must terminate with a slot in
+   0..size for EVERY ranker: C02_search_terminates_for_every_ranker) *)
+Definition rankers : list (Z -> Z -> comparison) :=
+  [Z.compare; (fun a b => Z.compare b a); (fun _ _ => Gt); (fun _ _ => Lt); (fun a b => if Z.even (a + b) then Lt else Gt)].
+Definition setv (l : list Z) : val Z := set_val VNil VNil l.
+Definition probes : list Z := [5; 11; 16; 22; 33; 40; 55; 60].
+Definition sweep_set_findIndex := flat_map (fun rk => flat_map (fun l => flat_map (fun x =>
+  cmpx (rank_ext rk) id_findIndex (setv l) [VElem x]
+       (of_out (setv l) (fun r => ORet (VTuple [VInt (Z.of_nat (fst r)); VBool (snd r)], setv l)) (find_index 0 rk l x))) probes) lists) rankers.
+Definition sweep_set_AddValue := flat_map (fun rk => flat_map (fun l => flat_map (fun x =>
+  cmpx (rank_ext rk) id_AddValue (setv l) [VElem x]
+       (of_out (setv l) (fun l' => ret_unit (setv l')) (set_add 0 rk l x))) probes) lists) rankers.
+Definition sweep_set_RemoveValue := flat_map (fun rk => flat_map (fun l => flat_map (fun x =>
+  cmpx (rank_ext rk) id_RemoveValue (setv l) [VElem x]
+       (of_out (setv l) (fun l' => ret_unit (setv l')) (set_remove 0 rk l x))) probes) lists) rankers.
+Definition sweep_set_ContainsValue := flat_map (fun rk => flat_map (fun l => flat_map (fun x =>
+  cmpx (rank_ext rk) id_ContainsValue (setv l) [VElem x]
+       (of_out (setv l) (fun b => ORet (VBool b, setv l)) (set_contains 0 rk l x))) probes) lists) rankers.
+Definition sweep_set_GetIndex := flat_map (fun rk => flat_map (fun l => flat_map (fun x =>
+  cmpx (rank_ext rk) id_GetIndex (setv l) [VElem x]
+       (of_out (setv l) (fun k => ORet (VInt (Z.of_nat k), setv l)) (set_get_index 0 rk l x))) probes) lists) rankers.
+Definition sweeps_C02 : list disagreement :=
+  sweep_set_findIndex ++ sweep_set_AddValue ++ sweep_set_RemoveValue ++ sweep_set_ContainsValue ++ sweep_set_GetIndex ++
+  sweeps_seq.
